@@ -36,6 +36,21 @@ CHECKS = {
          "Every rooted forest on <=3/4 entities in 3 layouts with and without key-id profile, the 14 x 14 x 9 algorithm grid (6 subject representatives in quick), self-signed roots, three-tier chains and 7 issuer origins; every written certificate is verified under its issuer's current certificate file with the algorithm it names, issuer DN bytes and hash key ids are compared, and misfitting algorithms must fail without a certificate.",
          "Signature primitives of Go's crypto and the brainpool curve parameters are trusted. Known finding: issuer DN re-encoding under foreign issuers (see known_findings.json).",
          "DESIGN.md §3 C01"),
+ "C02": ("exploration",
+         "deviation-bounded exhaustive enumeration of configurations through whole runs; every emitted certificate goes through a from-scratch strict DER linter, decode/re-encode, PEM re-encode, reference-model comparison and crypto/x509 as second acceptor",
+         "Baseline +- up to 2 deviations (3 over the small dimensions in thorough) across subject lengths at every header-length transition, the UTCTime/GeneralizedTime switch, serial boundaries and 200 random draws, unique ids, all 56 fitting key/signature pairs, issuer types and 25 extension sets. The linter rejects every non-canonical length, INTEGER, BOOLEAN, BIT STRING, OID, time, SET OF order, encoded DEFAULT and non-minimal named-bit list.",
+         "The random serial is observed over 200+ draws per run (bound also follows from the source constant); structured-content extension values are linted recursively, raw ones are opaque.",
+         "DESIGN.md §3 C02"),
+ "C03": ("exploration",
+         "exhaustive enumeration of subject strings at parser level and through whole runs with/without a subject-constraining profile, decoded independently",
+         "All 4.6e5 subject strings of length 1..3 over 11 keys x 7 values go through ParseRDNSequence against the documented grammar; all strings of length 1..2 and windows up to 8 attributes are generated as certificates without profile, with a constraining profile and with allowOther; serial and unique-id settings are a full 8x6x6 product.",
+         "Value alphabet is 7 representative texts (the value domain is unbounded); fresh-serial distinctness assumes no 2^-150 collision.",
+         "DESIGN.md §3 C03"),
+ "C04": ("exploration",
+         "exhaustive enumeration of calendar dates, duration grid, block combinations and local zones through whole runs, compared with own proleptic-Gregorian arithmetic",
+         "Every day of 8 boundary years (quick) / of all years 1950-2200 in two zones (thorough) as from and as until in 8 zones incl. +14, -11, 30-minute DST and DST-at-midnight; 335 durations from 13 start dates; all 72 presence combinations in certificate and profile.",
+         "Zone offsets come from Go's embedded tzdata; run-relative notBefore is bracketed by the measured run interval.",
+         "DESIGN.md §3 C04"),
 }
 NOT_YET = "check not built yet in this round (planned, see DESIGN.md §3)"
 
